@@ -229,7 +229,7 @@ class SimNet:
             if not rec.open:
                 return ("exc", httpcore.ConnectError("stream closed"))
             ctx = op.args.get("ssl_context")
-            offer = list(getattr(ctx, "alpn", None) or [])
+            offer = list(op.args["alpn_at_call"]) if "alpn_at_call" in op.args else list(getattr(ctx, "alpn", None) or [])
             selected = rec.peer.on_tls(op.args.get("server_hostname"), offer) if rec.peer else None
             rec.tls.append(
                 {
@@ -366,7 +366,9 @@ class AsyncSimStream(AsyncNetworkStream):
 
     async def start_tls(self, ssl_context, server_hostname=None, timeout=None):
         op = self._net.new_op(
-            "start_tls", self._rec.sid, ssl_context=ssl_context, server_hostname=server_hostname, timeout=timeout
+            "start_tls", self._rec.sid, ssl_context=ssl_context, server_hostname=server_hostname, timeout=timeout,
+                # (the ssl module reads the context when the handshake STARTS, not when it completes)
+                alpn_at_call=list(getattr(ssl_context, "alpn", None) or [])
         )
         await self._run(op)
         return AsyncSimStream(self._net, self._rec, self._layer + 1)
@@ -462,7 +464,9 @@ class SimStream(NetworkStream):
     def start_tls(self, ssl_context, server_hostname=None, timeout=None):
         self._do(
             self._net.new_op(
-                "start_tls", self._rec.sid, ssl_context=ssl_context, server_hostname=server_hostname, timeout=timeout
+                "start_tls", self._rec.sid, ssl_context=ssl_context, server_hostname=server_hostname, timeout=timeout,
+                # (the ssl module reads the context when the handshake STARTS, not when it completes)
+                alpn_at_call=list(getattr(ssl_context, "alpn", None) or [])
             )
         )
         return SimStream(self._net, self._rec, self._layer + 1)
